@@ -125,7 +125,7 @@ Value& MemberINSERTExpression::value(Context& ctx) const
       case Type::INTEGER:
         if (a1_type == Type::NUMERIC)
         {
-          rv->insert(rv->begin() + p, a1.isNull() ? Value(Value::type_integer) : Value(Integer(*a1.numeric())));
+          rv->insert(rv->begin() + p, a1.isNull() ? Value(Value::type_integer) : Value(Value::toInteger(*a1.numeric())));
           return val;
         }
         else if (a1.type() == Type::NO_TYPE)
